@@ -435,10 +435,17 @@ def cov_lookup(table):
     return d
 
 
-def check_law(cfg, queries, probes, covtab, levy, supplied="none", K=160, tol=2e-12):
+def check_law(cfg, queries, probes, covtab, levy, supplied="none", K=160, tol=2e-12, wrapper="interval"):
     """Gram matrix of the realised linear map vs the Brownian covariance printed by TLC.
-    Only tick-grid queries (multiples of Sub, tol = 0) are used: covtab is on the tick grid."""
+    Only tick-grid queries (multiples of Sub, tol = 0) are used: covtab is on the tick grid.
+    wrapper="reverse": the object is ReverseBrownian over a base on [-N, 0] - the path X(t) = -B(-t) of
+    spec/BrownianDerived.tla, itself a Brownian motion on [0, N]: the answers it returns (history and probes asked
+    THROUGH the wrapper) must have the same covariance table."""
     fails = []
+    if wrapper == "reverse":
+        if supplied != "none" or (cfg.Tol and cfg.T % (2 * cfg.Tol)):
+            return []
+        base_cfg = cfg.shifted(-cfg.T)
     sub = cfg.Sub
     have_U = levy != "none"
     allq = [q for q in list(queries) + list(probes) if q[0] % sub == 0 and q[1] % sub == 0 and q[0] < q[1]]
@@ -454,12 +461,21 @@ def check_law(cfg, queries, probes, covtab, levy, supplied="none", K=160, tol=2e
     with LabelledNoise(K) as ln, warnings.catch_warnings():
         warnings.simplefilter("ignore")
         try:
-            bm = B.make_real(cfg, size=(K,), levy=levy, entropy=5, **kw)
+            if wrapper == "reverse":
+                rev = _ask_fn(ReverseBrownian(B.make_real(base_cfg, size=(K,), levy=levy, entropy=5)), levy)
+
+                def ask(a, b):
+                    return rev(a / cfg.Sub, b / cfg.Sub)
+            else:
+                bm = B.make_real(cfg, size=(K,), levy=levy, entropy=5, **kw)
+
+                def ask(a, b):
+                    return B.call(bm, a, b, cfg, levy)
             for a, b in queries:
-                B.call(bm, a, b, cfg, levy)
+                ask(a, b)
             vecs = {}
             for q in seen:
-                W, U, _ = B.call(bm, q[0], q[1], cfg, levy)
+                W, U, _ = ask(q[0], q[1])
                 vecs[q] = (W, U)
         except Exception as e:  # noqa: BLE001
             return [("exception", dict(exc=type(e).__name__, msg=str(e)[:200]))]
